@@ -3,6 +3,7 @@
 
 pub mod clock;
 pub mod ctx;
+pub mod gen;
 pub mod imp;
 pub mod prng;
 pub mod refimpl {
@@ -11,3 +12,4 @@ pub mod refimpl {
     pub mod parse;
 }
 pub mod mon;
+pub mod trace_sub;
